@@ -131,12 +131,44 @@ def ok_edge_of_result(body, call_bb):
     return None, None
 
 
+def durable_write_fns(facts):
+    """Local helper functions that, on every non-Err return, have passed the Ok edge of write_all and then the Ok
+    edge of flush (wrapper summary: the helper 'is' a write_all+flush)."""
+    out = set()
+    for b in facts.bodies:
+        if b.kind == "closure":
+            continue
+        wa = [bb for bb, t in b.calls_to(WRITE_ALL)]
+        fl = [bb for bb, t in b.calls_to(FLUSH)]
+        if len(wa) != 1 or len(fl) != 1 or b.name == "work":
+            continue
+        wsw, wok = ok_edge_of_result(b, wa[0])
+        fsw, fok = ok_edge_of_result(b, fl[0])
+        if wok is None or fok is None or not must_pass_edge(b, fl[0], (wsw, wok)):
+            continue
+        good = True
+        for rb, si, e in assigns_to_return(b):
+            is_err = (e.k == "agg" and e.variant == "Err") or (e.k == "call" and (e.q or "").endswith("from_residual"))
+            if is_err:
+                continue
+            if not (must_pass_edge(b, rb, (fsw, fok)) and must_pass_edge(b, rb, (wsw, wok))):
+                good = False
+        if good:
+            out.add(b.q)
+    return out
+
+
 def rule_r2(facts, col):
+    wrappers = durable_write_fns(facts)
     for body in facts.impl_bodies(BLOCK_TRAIT, "work"):
         if not (body.self_adt or "").startswith("file_sink::"):
             continue
         wa = [bb for bb, t in body.calls_to(WRITE_ALL)]
         fl = [bb for bb, t in body.calls_to(FLUSH)]
+        wr = [bb for bb, t in body.calls_to(wrappers)] if wrappers else []
+        if wr and not wa and not fl:
+            # the helper stands for write_all followed by flush
+            wa, fl = [wr[0]], [wr[0]]
         key = body.q
         if not wa:
             col.bad("C17.R2", key + ":write_all", body.where(), "file sink work() never calls write_all", {})
@@ -154,7 +186,7 @@ def rule_r2(facts, col):
             col.bad("C17.R2", key + ":errors", body.where(wa[0]),
                     "the result of write_all/flush is not checked: a failed write is acknowledged as consumed", {})
             continue
-        if target(wa[0]) != target(fl[0]):
+        if wa[0] != fl[0] and target(wa[0]) != target(fl[0]):
             col.bad("C17.R2", key + ":same_file", body.where(fl[0]), "flush and write_all act on different objects", {})
             continue
         eff = effects.Effects(facts, body)
@@ -164,9 +196,9 @@ def rule_r2(facts, col):
         for c in consumes:
             if not must_pass_edge(body, c, (fsw, fok)):
                 probs.append("consume() at %s is reachable without a successful flush()" % body.where(c))
-            if not must_pass_edge(body, fl[0], (wsw, wok)):
+            if wa[0] != fl[0] and not must_pass_edge(body, fl[0], (wsw, wok)):
                 probs.append("flush() is reachable without a successful write_all()")
-            if not (body.dominates(wa[0], fl[0]) and body.dominates(fl[0], c)):
+            if not ((wa[0] == fl[0] or body.dominates(wa[0], fl[0])) and body.dominates(fl[0], c)):
                 probs.append("order is not write_all -> flush -> consume")
         for (_, pbb, some_t) in pops:
             # every Ok(non-Err) return reachable from the Some edge passes write_all-ok then flush-ok
@@ -181,7 +213,7 @@ def rule_r2(facts, col):
                     probs.append("a popped packet can be acknowledged (Ok return) without a successful write_all()")
                 if rb in cut2:
                     probs.append("a popped packet can be acknowledged (Ok return) without a successful flush()")
-                if not must_pass_edge(body, fl[0], (wsw, wok)):
+                if wa[0] != fl[0] and not must_pass_edge(body, fl[0], (wsw, wok)):
                     probs.append("flush() is reachable without a successful write_all()")
         if not consumes and not pops:
             col.silent("C17.R2", key, body.where(), "no consumption point found")
